@@ -297,6 +297,36 @@ impl<'tcx> Cx<'tcx> {
                 v.push(("uneval", s(tcx.def_path_str_with_args(uv.def, uv.args))));
                 if uv.promoted.is_some() {
                     v.push(("promoted", J::Num(uv.promoted.unwrap().index() as i128)));
+                    // what the promoted temporary is made of: the named constants and string literals it mentions
+                    if uv.def.is_local() {
+                        let proms = tcx.promoted_mir(uv.def);
+                        if let Some(pb) = proms.get(uv.promoted.unwrap()) {
+                            let mut inner: Vec<J> = Vec::new();
+                            for bb in pb.basic_blocks.iter() {
+                                for st in bb.statements.iter() {
+                                    if let StatementKind::Assign(bx) = &st.kind {
+                                        let mut ops: Vec<&Operand<'tcx>> = Vec::new();
+                                        match &bx.1 {
+                                            Rvalue::Use(o, ..) | Rvalue::Cast(_, o, _) => ops.push(o),
+                                            Rvalue::Aggregate(_, os) => ops.extend(os.iter()),
+                                            _ => {}
+                                        }
+                                        for o in ops {
+                                            if let Operand::Constant(ic) = o {
+                                                match ic.const_ {
+                                                    Const::Unevaluated(iu, _) if iu.promoted.is_none() => {
+                                                        inner.push(s(tcx.def_path_str_with_args(iu.def, iu.args)));
+                                                    }
+                                                    _ => {}
+                                                }
+                                            }
+                                        }
+                                    }
+                                }
+                            }
+                            v.push(("promoted_names", J::Arr(inner)));
+                        }
+                    }
                 }
             }
             Const::Ty(_, ct) => {
